@@ -73,7 +73,8 @@ RVPlain ==
    Num(R_2p63), Arr(<<Num(R_2p63), Num(R_2p63)>>), Arr(<<Num(R_i64max), Num(R_i64max)>>),
    Arr(<<Obj([a |-> Num(R_2p63)]), Obj([a |-> Num(R_2p63)])>>), Arr(<<Num(R_i64min), Num(R_i64min)>>)}
 RVReps(z) ==
-  UNION {WithWraps(RepsOf(v, IF K >= 2 THEN NR1 ELSE {"float64", "int", "jsonNumberE", "jsonNumber", "uint64", "uint8"}, AR, OR),
+  {PtrKids(x) : x \in UNION {RepsOf(v, {"float64", "int"}, {"any", "typed"}, {"any", "typed"}) : v \in {y \in RVPlain : y.t \in {"arr", "obj"}}}}
+  \cup UNION {WithWraps(RepsOf(v, IF K >= 2 THEN NR1 ELSE {"float64", "int", "jsonNumberE", "jsonNumber", "uint64", "uint8"}, AR, OR),
                    IF v.t \in {"arr", "obj"} THEN {<<>>, <<"ptr">>} ELSE Wraps) : v \in RVPlain}
 IntS == [type |-> "integer"]
 RVSchemas ==
@@ -93,7 +94,17 @@ RVSchemas ==
     [items |-> [properties |-> [a |-> [const |-> Num(R_1)]]]], [items |-> [items |-> [type |-> "integer"]]],
     [not |-> [type |-> "number"]], [anyOf |-> <<[type |-> "string"], [minimum |-> R_2]>>],
     \* multipleOf beyond the domain of L0 (verdicts "x"): the replay takes the canonical decoding's verdict as the oracle
-    [multipleOf |-> R_3], [multipleOf |-> R_2], [multipleOf |-> R_1]>>
+    [multipleOf |-> R_3], [multipleOf |-> R_2], [multipleOf |-> R_1],
+    \* one subschema object applied twice to the same place of the instance, the first time inside an applicator
+    \* that tolerates failure (what the evaluator remembers about a visit must not depend on how the value is held)
+    [defs |-> [o |-> [properties |-> [a |-> [minimum |-> R_2]]]],
+     anyOf |-> <<[ref |-> LocalRef(FragPtr(<<SegN("defs", "o")>>)), required |-> <<"b">>], [ref |-> LocalRef(FragPtr(<<SegN("defs", "o")>>))]>>],
+    [defs |-> [o |-> [items |-> [minimum |-> R_2]]],
+     if |-> [ref |-> LocalRef(FragPtr(<<SegN("defs", "o")>>))], then |-> TrueS, else |-> [ref |-> LocalRef(FragPtr(<<SegN("defs", "o")>>))]],
+    [defs |-> [o |-> [properties |-> [a |-> [type |-> "string"]], items |-> [type |-> "string"]]],
+     allOf |-> <<[not |-> [not |-> [ref |-> LocalRef(FragPtr(<<SegN("defs", "o")>>))]]], [ref |-> LocalRef(FragPtr(<<SegN("defs", "o")>>))]>>],
+    [defs |-> [o |-> [properties |-> [a |-> [maximum |-> R_1]]]],
+     oneOf |-> <<[ref |-> LocalRef(FragPtr(<<SegN("defs", "o")>>))], [ref |-> LocalRef(FragPtr(<<SegN("defs", "o")>>)), required |-> <<"a">>]>>]>>
 
 \* ------------------------------------------------------------ machine
 Single(s) == [docs |-> <<[uri |-> EmptyURI, s |-> s]>>]
